@@ -74,7 +74,7 @@ def run(tier):
     A = Automaton(prog, 'init_automata_mapping', 'switch_state_mapping')
     rep.rule('R14.1', 'complete transition relation of switch_state_mapping equals the oracle (state x input in [-128,255] x {fresh,expired})', floor=3 * 384)
     rep.rule('R14.2', 'timeouts of active states are non-zero and at most 30 s; idle has none', floor=3)
-    rep.rule('R14.3', 'tick: inactivity deadline expired => mapping idle, charge counter cleared, session table emptied', floor=4)
+    rep.rule('R14.3', 'tick: inactivity deadline expired => mapping idle, charge counter cleared, session table emptied (from every state, idle included)', floor=6)
     rep.rule('R14.4', 'mapping_reset_inactive_timeout arms a 30 s deadline', floor=1)
     # roles from the documented life-cycle
     op = oracle.OPCODES
@@ -144,7 +144,9 @@ def tick_checks(rep, prog, A, roles):
                   'inactivity deadline is armed as %s, expected clock + 30 s' % (short(t) if t else 'nothing'),
                   function='mapping_reset_inactive_timeout', sample={'deadline': short(t) if t else None})
     # R14.3: tick with expired deadline from each active state
-    for role in ('command', 'emit'):
+    # ... and from idle: a late frame can have dropped the engine to idle through its own state timeout while the deadline
+    # stays armed and the session table still holds the mapper - the tick must tear that down all the same
+    for role in ('command', 'emit', 'idle'):
         s = roles[role]
         st = A.state0.fork()
         st.trace, st.tags = (), {}
